@@ -3,7 +3,7 @@ From Coq Require Import List Arith Lia Bool PeanoNat String.
 Import ListNotations.
 Notation length := List.length.
 From SP Require Import Skel Gen Expected NetA Inv Pres Dead Top Ghost GhostPres Term Early NetTop.
-From SP Require Result TaskFS TmpInv.
+From SP Require Result TaskFS TmpInv Slots NetSlots.
 
 (* T1: runProcs starts every selected process except the driver, runs the driver in the caller and waits for all;
    Process.Run closes its out-ports on return; the select loop and the port protocol are the modelled ones *)
@@ -95,6 +95,51 @@ Qed.
 Theorem C05_nonvacuous : wf dia (fun _ => 2).
 Proof. exact dia_wf. Qed.
 
+(* ---- "whatever the stream lengths relative to buffer sizes and slot counts": the network composed with the task-slot
+   machine (NetSlots).  A task handed over by createTasks is spawned into the slot machine, where it competes with every
+   other task of the workflow for the maxConcurrentTasks tokens; the process sees its Done only once the slot machine has
+   finished it.  For every network as above, every slot count, every cores-per-task assignment that the start-up check
+   admits (cores <= slots), every schedule of the product: ---- *)
+
+(* no reachable state is stuck while some process is unfinished *)
+Theorem C05_with_slots_no_deadlock : forall (p : NetSlots.pcfg) (len : nat -> nat),
+  Inv.wf (NetSlots.ncfg p) len -> (forall v, v < nn (NetSlots.ncfg p) -> NetSlots.pcores p v <= NetSlots.pcap p) ->
+  forall (l : list NetSlots.pact) (s : NetSlots.pst),
+  NetSlots.prun p (NetSlots.pinit p) l = Some s ->
+  (exists v, v < nn (NetSlots.ncfg p) /\ rn (ns (NetSlots.net s) v) <> RFin) ->
+  exists a, NetSlots.pstep p s a <> None.
+Proof. exact NetSlots.product_not_stuck. Qed.
+
+(* every step strictly decreases a natural-number measure: every execution of the product is finite *)
+Theorem C05_with_slots_terminates : forall (p : NetSlots.pcfg) (len : nat -> nat),
+  Inv.wf (NetSlots.ncfg p) len -> (forall v, v < nn (NetSlots.ncfg p) -> NetSlots.pcores p v <= NetSlots.pcap p) ->
+  forall (l : list NetSlots.pact) (s : NetSlots.pst) (a : NetSlots.pact) (s' : NetSlots.pst),
+  NetSlots.prun p (NetSlots.pinit p) l = Some s -> NetSlots.pstep p s a = Some s' ->
+  NetSlots.pmeasure p len s' < NetSlots.pmeasure p len s.
+Proof.
+  intros p len WF FIT l s a s' R H.
+  apply (NetSlots.product_step_decreases p len FIT s a s'); [|exact H].
+  apply (NetSlots.prun_inv p len WF FIT l (NetSlots.pinit p) s); [|exact R].
+  apply (NetSlots.pinit_inv p len).
+Qed.
+
+(* when every process has finished, every task that was spawned has gone through the slot machine to its end and all
+   tokens are back: Run does not return with a task still holding or waiting for a slot *)
+Theorem C05_with_slots_all_done : forall (p : NetSlots.pcfg) (len : nat -> nat),
+  Inv.wf (NetSlots.ncfg p) len -> (forall v, v < nn (NetSlots.ncfg p) -> NetSlots.pcores p v <= NetSlots.pcap p) ->
+  forall (l : list NetSlots.pact) (s : NetSlots.pst),
+  NetSlots.prun p (NetSlots.pinit p) l = Some s ->
+  (forall v, v < nn (NetSlots.ncfg p) -> rn (ns (NetSlots.net s) v) = RFin) ->
+  (forall k t, nth_error (Slots.tasks (NetSlots.sl s)) k = Some t -> Slots.st t = Slots.Finished)
+  /\ Slots.tokens (NetSlots.sl s) = 0.
+Proof. exact NetSlots.product_all_done. Qed.
+
+(* non-vacuity of the product: the diamond with two slots and a process that asks for both *)
+Theorem C05_with_slots_nonvacuous :
+  Inv.wf (NetSlots.ncfg NetSlots.pdia) (fun _ => 2)
+  /\ (forall v, v < nn (NetSlots.ncfg NetSlots.pdia) -> NetSlots.pcores NetSlots.pdia v <= NetSlots.pcap NetSlots.pdia).
+Proof. split; [exact Top.dia_wf|exact NetSlots.pdia_fit]. Qed.
+
 Print Assumptions C05_code_conforms.
 Print Assumptions C05_no_deadlock.
 Print Assumptions C05_terminates.
@@ -103,3 +148,7 @@ Print Assumptions C05_all_done_at_return.
 Print Assumptions C05_no_leftovers.
 Print Assumptions C05_param_feeder_may_lag.
 Print Assumptions C05_nonvacuous.
+Print Assumptions C05_with_slots_no_deadlock.
+Print Assumptions C05_with_slots_terminates.
+Print Assumptions C05_with_slots_all_done.
+Print Assumptions C05_with_slots_nonvacuous.
